@@ -15,7 +15,7 @@ import (
 
 // C06 - HTML output has a fixed tag skeleton and cell text can never become markup.
 
-const c06Fam = gen.FAscii | gen.FHTML | gen.FNewline | gen.FWide | gen.FMD | gen.FCSV | gen.FCR | gen.FEmoji
+const c06Fam = gen.FAscii | gen.FHTML | gen.FNewline | gen.FWide | gen.FMD | gen.FCSV | gen.FCR | gen.FEmoji | gen.FEdge
 
 type c06Case struct {
 	Table   gen.TableSpec `json:"table"`
